@@ -37,6 +37,15 @@ type vkEntry struct {
 	v6    bool
 	base  [16]byte // first 4 bytes used for v4
 	bits  int
+	// mapped: an IPv4 CIDR written in IPv4-mapped form (::ffff:a.b.c.d/96+n, what an operator copies out of a
+	// dual-stack socket's log): it names a.b.c.d/n — the reading net.ParseCIDR + IPNet.Contains always gave it
+	mapped bool
+}
+
+func vkV4m(s string, a, b, c, d byte, bits int) vkEntry {
+	e := vkV4(s, a, b, c, d, bits)
+	e.mapped = true
+	return e
 }
 
 func vkV4(s string, a, b, c, d byte, bits int) vkEntry {
@@ -122,6 +131,10 @@ func vkUniverse() []vkEntry {
 		vkV6("::/0", [8]uint16{}, 0),
 		// an IPv6 host entry at the very bottom of the space (::/96, where IPv4 numbers live when read as 128-bit values)
 		vkV6("::1/128", [8]uint16{0, 0, 0, 0, 0, 0, 0, 1}, 128),
+		// IPv4 CIDRs in IPv4-mapped spelling
+		vkV4m("::ffff:10.0.0.19/128", 10, 0, 0, 19, 32),
+		vkV4m("::ffff:10.0.0.21/124", 10, 0, 0, 21, 28), // host bits -> 10.0.0.16/28
+		vkV4m("::ffff:0:0/96", 0, 0, 0, 0, 0),
 		// malformed — unparsable under any CIDR grammar
 		vkBad(""),
 		vkBad("10.0.0.16"),
@@ -254,8 +267,16 @@ func vkSelfCheck(u []vkEntry, ps []vkProbe, t [][]bool) string {
 			if !p.valid {
 				continue
 			}
-			if got := pf.Contains(p.addr.Unmap()); got != t[i][j] {
-				return fmt.Sprintf("oracle table disagrees with netip for %q contains %s: table %v netip %v", e.s, p.name, t[i][j], got)
+			got := pf.Contains(p.addr.Unmap())
+			if e.mapped {
+				_, n, err := net.ParseCIDR(e.s)
+				if err != nil {
+					return fmt.Sprintf("universe entry %q: net.ParseCIDR err=%v", e.s, err)
+				}
+				got = n.Contains(net.IP(p.addr.Unmap().AsSlice()))
+			}
+			if got != t[i][j] {
+				return fmt.Sprintf("oracle table disagrees with the library for %q contains %s: table %v library %v", e.s, p.name, t[i][j], got)
 			}
 		}
 	}
